@@ -1,6 +1,7 @@
 """C48 — cached metadata is used only while it is still valid."""
 import ast
 
+from ..core import generic as G
 from ..core import astutil as A
 from ..core import match as M
 from ..core import cfg as CFG
@@ -92,6 +93,18 @@ def run(ctx):
     de = P.func(CM, "base._deserialize_eclass_chfs")
     ctx.check("R4", de, M.has(de.node, "$z = zip(self.eclass_chf_deserializers, data)\nfor (($chf, $conv), $item) in $z:\n    yield ($chf, $conv($item))"), "pairs-are-kind-value", "recorded eclass data is a sequence of (kind, value) pairs — what rebuild_cache_entry compares")
     ctx.floor("R4", 3)
+
+    # ---- R6 preloaded eclass bodies are dropped on the daemon side when caching ends -------------------------------------
+    G.always_reaches(ctx, "R6", "pkgcore.ebuild.processor", "EbuildProcessor.disable_eclass_caching", lambda c: A.unparse(c.func) == "self.clear_preloaded_eclasses",
+                     "clear_preloaded_eclasses() (the daemon is told to forget the preloaded bodies)", "disable-clears-daemon")
+    cpe = P.func("pkgcore.ebuild.processor", "EbuildProcessor.clear_preloaded_eclasses")
+    wr = [c for c in A.calls(cpe.node) if A.unparse(c.func) == "self.write" and c.args and A.is_const(c.args[0], "clear_preloaded_eclasses")]
+    guards = [A.unparse(p_.test) for c in wr for p_ in A.parents(c) if isinstance(p_, ast.If)]
+    ctx.check("R6", cpe, bool(wr) and all(g_ in ("self.is_responsive", "self.is_alive") for g_ in guards), "clear-sent-when-alive:" + ",".join(guards),
+              "the clear command is sent whenever the daemon is there to receive it",
+              f"clear_preloaded_eclasses only talks to the daemon under `{' and '.join(guards)}`: when that is false for a live daemon the bash side keeps the old eclass bodies while "
+              f"Python believes nothing is preloaded — regenerated metadata comes from stale eclass text")
+    ctx.floor("R6", 2)
 
 
 MUTANTS = [
